@@ -868,91 +868,6 @@ def generic_subst(text, block, fo):
     return re.sub(r'\b(%s)\b' % '|'.join(re.escape(o) for o in ren), lambda mm: ren[mm.group(1)], text)
 
 
-def struct_fields(src):
-    """{struct name: {field name: type text}} for the braced structs declared in `src`"""
-    toks = lex(src)
-    S = [t for t in toks if t.kind not in ('ws', 'lcomment', 'bcomment')]
-    out = {}
-    for i, t in enumerate(S):
-        if not (t.kind == 'id' and t.text == 'struct' and i + 1 < len(S) and S[i + 1].kind == 'id'):
-            continue
-        name = S[i + 1].text
-        j = i + 2
-        while j < len(S) and S[j].text not in ('{', ';', '('):
-            j += 1
-        if j >= len(S) or S[j].text != '{':
-            continue
-        # tokens of the body, split at top-level commas
-        items, item, depth, k = [], [], 0, j + 1
-        while k < len(S):
-            x = S[k].text
-            if x in ('{', '(', '[', '<'):
-                depth += 1
-            elif x in ('}', ')', ']', '>'):
-                if depth == 0:
-                    break
-                depth -= 1
-            if depth == 0 and x == ',':
-                items.append(item)
-                item = []
-            else:
-                item.append(S[k])
-            k += 1
-        items.append(item)
-        fields = {}
-        for ts in items:
-            # drop attributes `#[..]` and visibility
-            while ts and ts[0].text == '#':
-                d2, m = 0, 1
-                while m < len(ts):
-                    if ts[m].text == '[':
-                        d2 += 1
-                    elif ts[m].text == ']':
-                        d2 -= 1
-                        if d2 == 0:
-                            break
-                    m += 1
-                ts = ts[m + 1:]
-            if ts and ts[0].text == 'pub':
-                ts = ts[1:]
-                if ts and ts[0].text == '(':
-                    while ts and ts[0].text != ')':
-                        ts = ts[1:]
-                    ts = ts[1:]
-            if len(ts) >= 3 and ts[0].kind == 'id' and ts[1].text == ':':
-                fields[ts[0].text] = ''.join(y.text for y in ts[2:])
-        out[name] = fields
-    return out
-
-
-def field_renames(repo):
-    """private fields of the invariant-carrying structs that have merely been renamed since the pinned commit
-    (spec/baseline_fields.json): the old name is gone and exactly one new field of the same type has appeared"""
-    bp = os.path.join(os.path.dirname(os.path.dirname(os.path.abspath(__file__))), 'spec', 'baseline_fields.json')
-    try:
-        base = json.load(open(bp))
-        now = {}
-        for root, dirs, files in os.walk(os.path.join(repo, 'src')):
-            for f in files:
-                if f.endswith('.rs'):
-                    now.update(struct_fields(open(os.path.join(root, f), encoding='utf-8').read()))
-    except Exception:
-        return {}
-    # the substitution in the contract text is by field name, so structs that share a field name must agree
-    votes = {}
-    for st, bf in base.items():
-        nf = now.get(st)
-        if nf is None:
-            continue
-        for fname, ftype in bf.items():
-            if fname in nf:
-                votes.setdefault(fname, set()).add(fname)
-                continue
-            cands = [n for n, t in nf.items() if t == ftype and n not in bf]
-            votes.setdefault(fname, set()).add(cands[0] if len(cands) == 1 else None)
-    return {f: next(iter(v)) for f, v in votes.items() if len(v) == 1 and next(iter(v)) not in (None, f)}
-
-
 def scan_pub_fields(src):
     """names of invariant-carrying structs that declare a `pub` field"""
     toks = lex(src)
